@@ -31,7 +31,7 @@ class M:
     def __init__(self, ctx, body, config):
         self.I, self.r = arena.run_fn(ctx, body['id'], config)
         self.body = body
-        self.own = [e for e in self.r.events if len(e.stack) == 1]
+        self.own = [e for e in self.r.events if e.is_own()]
         self.map = {}
         for e in self.own:
             if e.kind == 'call' and e.callee and e.ret is not None and e.args and e.args[0] == SELF:
@@ -425,7 +425,7 @@ def run(ctx, config='rel-all'):
             ctx.anchor_missing('O2', 'IntoIter::' + name)
             continue
         I2, r2 = arena.run_fn(ctx, b['id'], config)
-        ev = [e for e in r2.events if len(e.stack) == 1]
+        ev = [e for e in r2.events if e.is_own()]
         P_, E_ = ('load', ('fld', ('deref', SELF), 'collections::vec::IntoIter.ptr'), 0), ('load', ('fld', ('deref', SELF), 'collections::vec::IntoIter.end'), 0)
         fldn = 'ptr' if name == 'next' else 'end'
         cur = P_ if name == 'next' else E_
@@ -458,7 +458,7 @@ def run(ctx, config='rel-all'):
     else:
         b = pb[0]
         I2, r2 = arena.run_fn(ctx, b['id'], config)
-        ev = [e for e in r2.events if len(e.stack) == 1]
+        ev = [e for e in r2.events if e.is_own()]
         S = ('param', 1)
         Ls = [v for (bid, h), v in r2.loops.items() if bid == b['id']]
         okl = len(Ls) == 1
@@ -500,7 +500,7 @@ def run(ctx, config='rel-all'):
             ctx.anchor_missing('O2', 'IntoIter::' + nm)
             continue
         I2, r2 = arena.run_fn(ctx, bs[0]['id'], config)
-        sl = [e for e in r2.events if len(e.stack) == 1 and e.kind == 'slice']
+        sl = [e for e in r2.events if e.is_own() and e.kind == 'slice']
         P_ = ('load', ('fld', ('deref', SELF), 'collections::vec::IntoIter.ptr'), 0)
         okv = len(sl) == 1 and sl[0].args[0] == P_ and sl[0].args[1][0] == 'call' and 'ExactSizeIterator' in sl[0].args[1][1] and sl[0].args[1][1].endswith('::len') and len(sl[0].args[1][2]) == 1 \
             and (sl[0].args[1][2][0] == SELF or (sl[0].args[1][2][0][0] == 'addr' and sl[0].args[1][2][0][1][0] == 'local' and sl[0].args[1][2][0][1][2] == 1))
@@ -531,7 +531,7 @@ def run(ctx, config='rel-all'):
     b = rawvec('allocate_in')
     if b:
         I2, r2 = arena.run_fn(ctx, b['id'], config)
-        ev = [e for e in r2.events if len(e.stack) == 1 and e.kind == 'call']
+        ev = [e for e in r2.events if e.is_own() and e.kind == 'call']
         cm = [e for e in ev if (e.callee or '').endswith('checked_mul')]
         ag = [e for e in ev if (e.callee or '').endswith('::alloc_guard')]
         al = [e for e in ev if (e.extra.get('trait_path') or '') in ('alloc::Alloc::alloc', 'alloc::Alloc::alloc_zeroed')]
@@ -564,36 +564,7 @@ def run(ctx, config='rel-all'):
             ctx.ok('R3', 'Vec::%s forwards (len, additional) to RawVec::%s' % (name, calls[0].callee.split('::')[-1]), 'argument identity')
         else:
             ctx.violation('R3', 'Vec::' + name, 'forward', 'Vec::%s does not forward (self.len, additional) in that order to the raw buffer' % name, b.get('span'))
-    # ---- R5 reallocation results are adopted
-    n5 = 0
-    for b in db.fn_bodies():
-        mm = b['meta']
-        if b['kind'] == 'closure' or not (mm.get('impl_adt') or '').endswith('raw_vec::RawVec'):
-            continue
-        has = any((t['callee'].get('path') or '') in ('alloc::Alloc::realloc', 'alloc::Alloc::alloc', 'alloc::Alloc::alloc_zeroed') for bi, t in db.calls(b))
-        if not has:
-            continue
-        I, r = arena.run_fn(ctx, b['id'], config)
-        own = [e for e in r.events if len(e.stack) == 1]
-        acalls = [e for e in own if e.kind == 'call' and (e.extra.get('trait_path') or '').startswith('alloc::Alloc::') and (e.extra.get('trait_path') or '').split('::')[-1] in ('realloc', 'alloc', 'alloc_zeroed')]
-        pst = [e for e in own if e.kind in ('store',) and e.lv[0] == 'fld' and e.lv[2].endswith('RawVec.ptr')]
-        fn = arena.short(b['id'])
-        if mm.get('name') in ('allocate_in',):
-            # constructor: the pointer goes into the returned RawVec aggregate
-            okv = r.ret is not None and any(isinstance(t, tuple) and t and t[0] == 'call' and 'Alloc::alloc' in t[1] for t in subterms(r.ret)) or bool(pst)
-        else:
-            okv = bool(acalls) and bool(pst) and all(any(isinstance(t, tuple) and t == c.ret for t in subterms(s.val)) or any(c.ret in subterms(s.val) for c in acalls) for s in pst for c in acalls[:1]) if pst else False
-            pays = []
-            for c in acalls:
-                if c.ret is not None:
-                    pays.append(I.project_variant(None, c.ret, 'Ok', '0'))
-                    pays.append(c.ret)
-            okv = bool(pst) and any(any(pv == s.val or pv in subterms(s.val) for pv in pays) for s in pst)
-        n5 += 1
-        if okv:
-            ctx.ok('R5', '%s stores the pointer returned by the (re)allocation into self.ptr' % fn, 'term containment')
-        else:
-            ctx.violation('R5', fn, 'realloc-result-dropped', '%s (re)allocates the buffer but does not store the returned pointer into self.ptr: after the arena moved the block the vector would keep using the old address' % fn, b.get('span'))
+    n5 = check_realloc_adopted(ctx, db, config, 'R5')
     ctx.floor('R5', n5, 4, 'RawVec functions that (re)allocate')
     check_unwind_consistency(ctx, db)
     from . import drainfilter, splice, c19, forwarding, glue
@@ -615,6 +586,41 @@ def run(ctx, config='rel-all'):
     ctx.floor('R7', ns, 60, 'size sinks in vec.rs / raw_vec.rs')
     # ---- R11 try_reserve* returning Err leaves the vector unchanged (std): shared with C19.R6
     c19.check_rawvec_failure_atomicity(ctx, db, config, 'R11')
+
+
+def check_realloc_adopted(ctx, db, config, rule='R5'):
+    """R5: RawVec stores the pointer every (re)allocation returns (the arena may have moved the block)"""
+    # ---- R5 reallocation results are adopted
+    n5 = 0
+    for b in db.fn_bodies():
+        mm = b['meta']
+        if b['kind'] == 'closure' or not (mm.get('impl_adt') or '').endswith('raw_vec::RawVec'):
+            continue
+        has = any((t['callee'].get('path') or '') in ('alloc::Alloc::realloc', 'alloc::Alloc::alloc', 'alloc::Alloc::alloc_zeroed') for bi, t in db.calls(b))
+        if not has:
+            continue
+        I, r = arena.run_fn(ctx, b['id'], config)
+        own = [e for e in r.events if e.is_own()]
+        acalls = [e for e in own if e.kind == 'call' and (e.extra.get('trait_path') or '').startswith('alloc::Alloc::') and (e.extra.get('trait_path') or '').split('::')[-1] in ('realloc', 'alloc', 'alloc_zeroed')]
+        pst = [e for e in own if e.kind in ('store',) and e.lv[0] == 'fld' and e.lv[2].endswith('RawVec.ptr')]
+        fn = arena.short(b['id'])
+        if mm.get('name') in ('allocate_in',):
+            # constructor: the pointer goes into the returned RawVec aggregate
+            okv = r.ret is not None and any(isinstance(t, tuple) and t and t[0] == 'call' and 'Alloc::alloc' in t[1] for t in subterms(r.ret)) or bool(pst)
+        else:
+            okv = bool(acalls) and bool(pst) and all(any(isinstance(t, tuple) and t == c.ret for t in subterms(s.val)) or any(c.ret in subterms(s.val) for c in acalls) for s in pst for c in acalls[:1]) if pst else False
+            pays = []
+            for c in acalls:
+                if c.ret is not None:
+                    pays.append(I.project_variant(None, c.ret, 'Ok', '0'))
+                    pays.append(c.ret)
+            okv = bool(pst) and any(any(pv == s.val or pv in subterms(s.val) for pv in pays) for s in pst)
+        n5 += 1
+        if okv:
+            ctx.ok(rule, '%s stores the pointer returned by the (re)allocation into self.ptr' % fn, 'term containment')
+        else:
+            ctx.violation(rule, fn, 'realloc-result-dropped', '%s (re)allocates the buffer but does not store the returned pointer into self.ptr: after the arena moved the block the vector would keep using the old address' % fn, b.get('span'))
+    return n5
 
 
 def check_unwind_consistency(ctx, db):
